@@ -420,6 +420,9 @@ var c19Alphabets = [][]rune{
 	// runes an implementation might set aside as a marker: the replacement character written out (valid UTF-8 like any
 	// other), NUL and the separators of ASCII, the last code points of the planes, a private-use rune
 	[]rune("aB1_\ufffd\x00\x1e\x1f\uffff\U0010ffff\ue000\ufeff"),
+	// text that is not in a Unicode normal form: conjoining jamo, kana with a combining voiced mark, marks in non-canonical
+	// order, code points with a singleton decomposition (Kelvin, Ohm, Angstrom signs, a compatibility ideograph)
+	[]rune("\u1112\u1161\u11ab\u304b\u3099q\u0307\u0323x\u212a\u2126\u212b\uf900\u0627\u0653a1"),
 }
 
 func genC19Bytes(r *Rng) []byte {
